@@ -49,7 +49,8 @@ def main():
         if os.path.exists(mf):
             mnt = open(mf).read().strip()
         mount(cdir, os.path.join(REPO, mnt), repl, skip="inpkg")
-        mount(os.path.join(cdir, "inpkg"), REPO, repl)
+        if not os.environ.get("VERIF_NO_INPKG"):
+            mount(os.path.join(cdir, "inpkg"), REPO, repl)
         print(mnt)
     for extra in sys.argv[3:]:
         with open(extra) as fh:
